@@ -20,6 +20,7 @@ import YashModel.Pipe.FlowLemmas
 import YashModel.Pipe.FdLemmas
 import YashModel.Pipe.FileLemmas
 import YashModel.Pipe.TwoWritersLemmas
+import YashModel.Pipe.WakeLemmas
 namespace YashModel.Pipe
 
 variable {α : Type}
@@ -31,6 +32,17 @@ theorem real_valid : Cfg.real.Valid := by decide
 /-- … and POSIX's lower bound: {PIPE_BUF} is at least `_POSIX_PIPE_BUF` = 512, so every write of at most
     512 bytes is atomic (`write_atomic`), as applications are entitled to assume. -/
 theorem real_posix_pipe_buf : posixPipeBuf ≤ Cfg.real.pipeBuf := by decide
+
+/-- The other literals of the code that the model types by hand — descriptor numbers 0/1/2 of
+    `move_to_stdin_stdout` / `subshell_body` (Fds.lean), `MIN_INTERNAL_FD` (the `lim` driver), the character
+    `expand_common` trims (the `10` of `substValue` / `flowSpec`), the room `read_all_to` offers to each `read`
+    (the `1024` of `stepReader`) — are the code's constants as re-extracted on this run (`decide` over the
+    generated table): a change of any of them in /repo fails this obligation instead of silently leaving
+    the model behind. -/
+theorem real_fd_consts :
+    Generated.PipeConsts.STDIN = 0 ∧ Generated.PipeConsts.STDOUT = 1 ∧ Generated.PipeConsts.STDERR = 2 ∧
+    Generated.PipeConsts.MIN_INTERNAL_FD = 10 ∧ Generated.PipeConsts.SUBST_TRIM_CHAR = 10 ∧
+    Generated.PipeConsts.READ_ALL_RESERVE = 1024 := by decide
 
 /-- ★ Conservation: in every reachable state — every payload, every capacity with
     `1 ≤ PIPE_BUF ≤ PIPE_SIZE`, every request/buffer size ≥ 1, every interleaving —
@@ -624,6 +636,81 @@ theorem heredoc_char_rewind_ascii_same (body : List Char) (h : ∀ c ∈ body, c
   congr 2
   omega
 
+/-! ### the wake-up half: wakers registered, fired and honoured (Wake.lean) -/
+
+/-- ★ The system with explicit wakers refines the system of Model.lean: whatever the executor does — poll a
+    process whose waker fired, poll one spuriously, in any order, with any request and buffer size ≥ 1 —
+    the data side of every reachable state is a reachable state of writer ∥ reader, so conservation
+    (`pipe_conservation`), the capacity bound, `no_epipe`, `eof_iff_done` and `done_complete` hold there too. -/
+theorem wake_refines_pipe (c : Cfg) (payload : List α) (s : WSys α) (hr : WReach c payload s) :
+    Reach c payload s.base ∧
+      s.base.received ++ s.base.pipe.content ++ s.base.unsent = payload :=
+  ⟨wreach_base hr, (inv_reach (wreach_base hr)).cons⟩
+
+/-- ★ No lost wake-up: in every reachable state a process that is parked inside `select` and whose waker
+    has not fired still has that waker registered in the FIFO's `pending_write_wakers` (writer) /
+    `pending_read_wakers` (reader), and its descriptor is indeed not ready.  Contrapositive: as soon as the
+    descriptor of a parked process is ready, its waker has fired — by the `wake_all` in the other side's
+    `poll_read` / `poll_write` / `close` — and the executor will poll it. -/
+theorem no_lost_wakeup (c : Cfg) (payload : List α) (s : WSys α) (hr : WReach c payload s) :
+    (s.base.wpc = .wait → s.w.parked = true → s.w.woken = false →
+      s.w.reg = true ∧ s.base.pipe.readyW c = false) ∧
+    (s.base.rpc = .wait → s.r.parked = true → s.r.woken = false →
+      s.r.reg = true ∧ s.base.pipe.readyR = false) :=
+  ⟨(winv_reach hr).hw, (winv_reach hr).hr⟩
+
+/-- ★ No deadlock with real wake-ups: in every reachable state that is not final the executor owes some
+    process a poll — a *legitimate* one (`spur = false`: the process is running, or has yielded and not yet
+    parked, or is parked and its waker has fired) — and that poll is a step.  Readiness alone no longer
+    counts: a parked process moves only after a wake-up. -/
+theorem wake_no_deadlock (c : Cfg) (hv : c.Valid) (payload : List α) (s : WSys α)
+    (hr : WReach c payload s) (hnf : s.base.final = false) :
+    ∃ a s', a.ok = true ∧ a.legit = true ∧ s.step c a = some s' := by
+  obtain ⟨a, b, ha, hs⟩ := pipe_no_deadlock c hv payload s.base (wreach_base hr) hnf
+  cases a with
+  | w k =>
+    obtain ⟨s', hs'⟩ := wstepW_some_of_base (winv_reach hr) (by simpa [Sys.step] using hs)
+    exact ⟨.w k false, s', by simpa [WAct.ok, Act.ok] using ha, rfl, hs'⟩
+  | r n =>
+    obtain ⟨s', hs'⟩ := wstepR_some_of_base (c := c) (winv_reach hr) (by simpa [Sys.step] using hs)
+    exact ⟨.r n false, s', by simpa [WAct.ok, Act.ok] using ha, rfl, hs'⟩
+
+/-- ☆ Progress with real wake-ups: every legitimate poll strictly decreases `WSys.measure` — parking,
+    being woken while the descriptor is still not ready (room < PIPE_BUF) and parking again included —
+    so wake-ups cannot ping-pong for ever. -/
+theorem wake_progress (c : Cfg) (hv : c.Valid) (payload : List α) (s s' : WSys α) (a : WAct)
+    (hr : WReach c payload s) (ha : a.ok = true) (hl : a.legit = true) (hs : s.step c a = some s') :
+    s'.measure c < s.measure c := by
+  have hi := inv_reach (wreach_base hr)
+  cases a with
+  | w k spur =>
+    have : spur = false := by simpa [WAct.legit] using hl
+    subst this
+    exact wmeasure_stepW hv (by simpa [WAct.ok] using ha) hi hs
+  | r n spur =>
+    have : spur = false := by simpa [WAct.legit] using hl
+    subst this
+    exact wmeasure_stepR (by simpa [WAct.ok] using ha) hi hs
+
+/-- The operations with wakers that the driver runs on operation sequences (`sysWriteW`, `pollWriteW`,
+    `sysReadW`, `wfClose`) are the operations of Model.lean plus bookkeeping: forgetting the waker sets gives
+    exactly `sysWrite` / `pollWrite` / `sysRead` / `closeFd`, for every state, request and waker state — so
+    `write_meets_spec`, `read_meets_spec`, `write_atomic`, `write_epipe_iff` speak about what the driver runs. -/
+theorem waker_ops_project (c : Cfg) (o : Ofd) (p : Fifo α) (w : Wakers) (buf : List α) (n : Nat) (r wr : Bool) :
+    ((o.sysWriteW c p w buf).1, (o.sysWriteW c p w buf).2.1) = o.sysWrite c p buf ∧
+    ((o.pollWriteW c p w buf).1, (o.pollWriteW c p w buf).2.1) = o.pollWrite c p buf ∧
+    ((o.sysReadW p w n).1, (o.sysReadW p w n).2.1, (o.sysReadW p w n).2.2.1) = o.sysRead p n ∧
+    (wfClose p w r wr).1 = p.closeFd r wr :=
+  ⟨sysWriteW_proj c o p w buf, pollWriteW_proj c o p w buf, sysReadW_proj o p w n, rfl⟩
+
+/-- ★ End to end for two virtual processes: the function the model driver runs for `xfer mode=proc`
+    — a seeded executor that polls a parked process only after its waker has fired, with the fuel the driver
+    gives it — ends in the final state with exactly the payload, for every payload, valid capacity, seed,
+    writer piece size and reader buffer size. -/
+theorem wtransfer_delivers (c : Cfg) (hv : c.Valid) (seed wk rk : Nat) (x : List α) :
+    wtransfer c seed wk rk x = some x :=
+  wtransfer_eq c hv seed wk rk x
+
 /-! ### non-vacuity and necessity of the hypotheses -/
 
 /-- a concrete reachable non-trivial state with the real capacity: 3000 bytes, the writer asks for
@@ -732,5 +819,52 @@ example (buf : List Nat) :
 example : (substRun (fun fd => if fd = 0 ∨ fd = 2 then some .file else none) 7).2 = true :=
   substRun_connected _ 7 (by intro fd; by_cases h : fd = 0 ∨ fd = 2 <;> simp [h])
     ⟨1, 3, by decide, by decide, by decide, by decide⟩
+
+/-- a reachable state with both kinds of waiting (PIPE_SIZE 8, PIPE_BUF 4): the writer filled the pipe,
+    got EAGAIN, polled `select` and is parked with its waker registered; the reader takes 3 bytes — room 3 is
+    still below PIPE_BUF — which fires the waker; the writer is polled, finds the descriptor not ready
+    and parks again; after 2 more bytes it is woken and runs -/
+example :
+    let c : Cfg := { pipeSize := 8, pipeBuf := 4 }
+    let s1 := (WSys.init (List.range 20)).run c [.w 20 false, .w 20 false, .w 20 false]
+    let s2 := s1.run c [.r 3 false]
+    let s3 := s2.run c [.w 20 false]
+    let s4 := s3.run c [.r 2 false, .w 20 false]
+    s1.w = { parked := true, reg := true, woken := false } ∧ s1.step c (.w 20 false) = none ∧
+    s2.w = { parked := true, reg := false, woken := true } ∧
+    s3.w = { parked := true, reg := true, woken := false } ∧
+    s4.base.wpc = .run ∧ s4.w = {} := by
+  decide
+
+example : WReach ({ pipeSize := 8, pipeBuf := 4 } : Cfg) (List.range 20)
+    ((WSys.init (List.range 20)).run { pipeSize := 8, pipeBuf := 4 } [.w 20 false, .w 20 false, .w 20 false, .r 3 false]) :=
+  wreach_run WReach.init _ (by decide)
+
+/-- the hypotheses of `no_lost_wakeup` (first conjunct) are met in a reachable state: after three polls the
+    writer waits, is parked and has not been woken — and indeed it is registered and not ready -/
+example :
+    let c : Cfg := { pipeSize := 8, pipeBuf := 4 }
+    let s1 := (WSys.init (List.range 20)).run c [.w 20 false, .w 20 false, .w 20 false]
+    WReach c (List.range 20) s1 ∧ s1.base.wpc = .wait ∧ s1.w.parked = true ∧ s1.w.woken = false ∧
+      s1.w.reg = true ∧ s1.base.pipe.readyW c = false :=
+  ⟨wreach_run WReach.init _ (by decide), by decide⟩
+
+/-- the registration is necessary: the same state with the writer's registration forgotten (what a `select`
+    that does not call `register_writer_waker` leaves behind) — the reader drains the pipe, nobody fires
+    the writer's waker, the reader parks: nobody is owed a poll although 12 bytes are still unsent -/
+example :
+    let c : Cfg := { pipeSize := 8, pipeBuf := 4 }
+    let s1 := (WSys.init (List.range 20)).run c [.w 20 false, .w 20 false, .w 20 false]
+    let bad : WSys Nat := { s1 with w := { s1.w with reg := false } }
+    let s2 := bad.run c [.r 8 false, .r 8 false, .r 8 false]
+    s2.base.final = false ∧ s2.base.unsent.length = 12 ∧ s2.base.pipe.readyW c = true ∧
+      s2.step c (.w 20 false) = none ∧ s2.step c (.r 8 false) = none := by
+  decide
+
+/-- `wtransfer_delivers` at the real capacity and, evaluated, in a small one -/
+example : wtransfer Cfg.real 7 513 3 (List.range 3000) = some (List.range 3000) :=
+  wtransfer_delivers Cfg.real real_valid 7 513 3 _
+
+example : wtransfer { pipeSize := 8, pipeBuf := 4 } 5 0 3 (List.range 20) = some (List.range 20) := by decide
 
 end YashModel.Pipe
